@@ -118,8 +118,11 @@ fn classify(ar: usize, ac: usize, br: usize, bc: usize) -> &'static str {
 }
 
 fn one(rep: &mut Report, op: char, kind: Kind, ar: usize, ac: usize, br: usize, bc: usize, salt: f64) {
-    let ad = left_data(ar, ac, salt);
-    let bd = right_data(br, bc, salt);
+    one_with(rep, op, kind, ar, ac, br, bc, left_data(ar, ac, salt), right_data(br, bc, salt), "");
+}
+
+/// One call on the given operand data; `suffix` (empty or ":<family>") extends the regime label.
+fn one_with(rep: &mut Report, op: char, kind: Kind, ar: usize, ac: usize, br: usize, bc: usize, ad: Vec<f64>, bd: Vec<f64>, suffix: &str) {
     let a = Matrix::new(ad.clone(), ar as i32, ac as i32);
     let b = Matrix::new(bd.clone(), br as i32, bc as i32);
     let kname = match kind {
@@ -128,7 +131,7 @@ fn one(rep: &mut Report, op: char, kind: Kind, ar: usize, ac: usize, br: usize, 
         Kind::VM(_) => "VM",
     };
     let cls = classify(ar, ac, br, bc);
-    let regime = format!("{}:{}:{}", kname, cls, op);
+    let regime = format!("{}:{}:{}{}", kname, cls, op, suffix);
     rep.case(&regime);
     let expect = model(op, &ad, ar, ac, &bd, br, bc);
     let got = guard(|| apply(op, kind, &a, &b));
@@ -138,7 +141,7 @@ fn one(rep: &mut Report, op: char, kind: Kind, ar: usize, ac: usize, br: usize, 
                "expected": match &expect { Some((r,c,d)) => json!({"shape":[r,c],"data":jf(d)}), None => json!("panic") }})
     };
     rep.distinct(
-        Hasher::new().s(&regime).u(ar as u64).u(ac as u64).u(br as u64).u(bc as u64).u(match kind { Kind::MM(f) | Kind::MV(f) | Kind::VM(f) => f as u64 }).finish(),
+        Hasher::new().s(&regime).fs(if suffix.is_empty() { &[] } else { &ad }).fs(if suffix.is_empty() { &[] } else { &bd }).u(ar as u64).u(ac as u64).u(br as u64).u(bc as u64).u(match kind { Kind::MM(f) | Kind::MV(f) | Kind::VM(f) => f as u64 }).finish(),
         ar * ac > 1 || br * bc > 1,
     );
     match (&expect, &got) {
@@ -166,9 +169,47 @@ fn one(rep: &mut Report, op: char, kind: Kind, ar: usize, ac: usize, br: usize, 
                          "outcome": match &got { Ok(m) => json!({"shape":[m.nrows, m.ncols]}), Err(e) => json!({"panic": e}) }}));
 }
 
+// ---------------------------------------------------------------------------------------------
+// constant-valued operands: the shape logic and the entry rule do not depend on the values, in
+// particular not on an operand being made of the operator's neutral element
+
+const PATTERNS: [&str; 6] = ["all-0", "all-1", "all--1", "signed-zeros", "neutral-but-one", "constant"];
+const SIDES: [&str; 3] = ["left", "right", "both"];
+
+fn pattern_data(rng: &mut Rng, pattern: usize, op: char, len: usize) -> Vec<f64> {
+    let neutral = if op == '+' || op == '-' { 0.0 } else { 1.0 };
+    match pattern {
+        0 => vec![0.0; len],
+        1 => vec![1.0; len],
+        2 => vec![-1.0; len],
+        3 => (0..len).map(|_| if rng.bool() { 0.0 } else { -0.0 }).collect(),
+        4 => {
+            let mut v = vec![neutral; len];
+            let k = rng.usize(0, len - 1);
+            v[k] = *rng.choose(&[7.5, -3.0, 0.5, 2.0, if neutral == 0.0 { 1.0 } else { 0.0 }]);
+            v
+        }
+        _ => vec![*rng.choose(&[2.5, -0.75, 3.0, 1e-3, 2.0]); len],
+    }
+}
+
+fn constant_case(rng: &mut Rng, rep: &mut Report, op: char, f: u8, ar: usize, ac: usize, br: usize, bc: usize, pattern: usize, side: usize) {
+    let ad = if side != 1 { pattern_data(rng, pattern, op, ar * ac) } else { left_data(ar, ac, 0.0) };
+    let bd = if side != 0 { pattern_data(rng, pattern, op, br * bc) } else { right_data(br, bc, 0.0) };
+    let suffix = format!(":const-{}", SIDES[side]);
+    rep.seen(&format!("const:{}:{}", PATTERNS[pattern], SIDES[side]), 1);
+    one_with(rep, op, Kind::MM(f), ar, ac, br, bc, ad.clone(), bd.clone(), &suffix);
+    if br == 1 {
+        one_with(rep, op, Kind::MV(f), ar, ac, br, bc, ad.clone(), bd.clone(), &suffix);
+    }
+    if ar == 1 {
+        one_with(rep, op, Kind::VM(f), ar, ac, br, bc, ad, bd, &suffix);
+    }
+}
+
 pub fn run(cfg: &Cfg, rep: &mut Report) {
-    rep.rule = "exhaustive: all shape pairs (rows, cols in 1..=D) x {+,-,*,/} x {Matrix∘Matrix, Matrix∘Vector, Vector∘Matrix} x 4 ownership forms, distinct-valued entries; then random shapes up to 40x40. non-trivial = at least one operand has more than one element; distinct by (kind, class, op, shapes, ownership form)".into();
-    rep.assume("entries are finite, non-zero and pairwise distinct (1+k, 100+3k): the property is about shape logic, C04 covers special values");
+    rep.rule = "exhaustive: all shape pairs (rows, cols in 1..=D) x {+,-,*,/} x {Matrix∘Matrix, Matrix∘Vector, Vector∘Matrix} x 4 ownership forms, distinct-valued entries; then random shapes up to 40x40. non-trivial = at least one operand has more than one element; distinct by (kind, class, op, shapes, ownership form); plus constant-valued operands (all 0 / 1 / -1, mixed signed zeros, neutral element everywhere but one position, other constants) on either or both sides over all shape pairs up to 5x5 (thorough 6x6) in every ownership form and random shapes up to 40x40 (regimes *:const-left|right|both)".into();
+    rep.assume("entries are finite, non-zero and pairwise distinct (1+k, 100+3k): the property is about shape logic, C04 covers special values; the const-* regimes use constant operands (0, 1, -1, +-0, ...) whose results (including inf / NaN from division by zero, NaNs identified) are compared with the same scalar operation");
     let d = if cfg.lite { if cfg.miri() { 3 } else { 4 } } else { 6 };
     rep.exhaustive = Some(!cfg.lite);
     // exhaustive cube, parallel over the left shape
@@ -256,6 +297,66 @@ pub fn run(cfg: &Cfg, rep: &mut Report) {
                 }
             }
         });
+    }
+    // constant-valued operands (all 0, all 1, all -1, mixed signed zeros, the operator's neutral element
+    // everywhere but one position, another constant) on the left, the right or both sides: every shape
+    // pair up to DxD in every ownership form (incompatible pairs must still panic), then random larger shapes
+    if !cfg.miri() {
+        let dc = if cfg.lite { 3 } else if cfg.thorough() { 6 } else { 5 };
+        let cshapes: Vec<(usize, usize)> = (1..=dc).flat_map(|r| (1..=dc).map(move |c| (r, c))).collect();
+        par_cases(cfg, rep, 4, cshapes.len() * cshapes.len(), |i, rng, rep| {
+            let (ar, ac) = cshapes[i / cshapes.len()];
+            let (br, bc) = cshapes[i % cshapes.len()];
+            for &op in &OPS {
+                for pattern in 0..PATTERNS.len() {
+                    for side in 0..SIDES.len() {
+                        for f in 0..4u8 {
+                            constant_case(rng, rep, op, f, ar, ac, br, bc, pattern, side);
+                        }
+                    }
+                }
+            }
+        });
+        let nc = cfg.pick(1500, 30000, 100);
+        par_cases(cfg, rep, 5, nc, |i, rng, rep| {
+            let (mut ar, mut ac) = (rng.usize(1, 40), rng.usize(1, 40));
+            if rng.chance(0.25) {
+                ar = 1;
+            }
+            if rng.chance(0.25) {
+                ac = 1;
+            }
+            let pickdim = |rng: &mut Rng, x: usize| -> usize {
+                match rng.usize(0, 9) {
+                    0..=3 => x,
+                    4..=6 => 1,
+                    7 => rng.usize(1, x),
+                    _ => rng.usize(1, 40),
+                }
+            };
+            let (br, bc) = (pickdim(rng, ar), pickdim(rng, ac));
+            let ((ar, ac), (br, bc)) = if rng.bool() { ((ar, ac), (br, bc)) } else { ((br, bc), (ar, ac)) };
+            let op = OPS[i % 4];
+            let f = rng.usize(0, 3) as u8;
+            constant_case(rng, rep, op, f, ar, ac, br, bc, (i / 4) % PATTERNS.len(), (i / 24) % SIDES.len());
+        });
+        for p in PATTERNS {
+            for sd in SIDES {
+                rep.require(&format!("const:{}:{}", p, sd), 1);
+            }
+        }
+        for k in ["MM", "MV", "VM"] {
+            for cls in ["same", "scalar", "incompatible", "col-stretch", "row-stretch", "outer"] {
+                if (k == "MV" || k == "VM") && cls == "col-stretch" {
+                    continue;
+                }
+                for op in OPS {
+                    for sd in SIDES {
+                        rep.require(&format!("{}:{}:{}:const-{}", k, cls, op, sd), 1);
+                    }
+                }
+            }
+        }
     }
     for k in ["MM", "MV", "VM"] {
         for cls in ["same", "scalar", "incompatible", "col-stretch", "row-stretch"] {
